@@ -457,3 +457,65 @@ Proof.
     eapply Forall_impl; [ | exact L2 ]. intros e [Z | (p & E1 & E2 & E3)]; [ left; exact Z | right ].
     exists p. rewrite <- B1, <- B2. splits; assumption.
 Qed.
+
+(* run_ok with spare budget [c] left over at the end *)
+Lemma run_ok_c rz : forall ops w b c,
+  inv w -> allocFailed w = false ->
+  (b = true -> ph w = PhObjects) ->
+  wf_ops b ops = true ->
+  ops_cost rz ops + c + pad_due w <= available_space w ->
+  let '(w', log) := run rz w ops in
+  inv w' /\ same_bounds w w' /\ allocFailed w' = false /\ Forall (entry_ok w) log /\
+  c + pad_due w' <= available_space w' /\ (b = true -> forallb is_object ops = true -> ph w' = PhObjects).
+Proof.
+  induction ops as [ | o rest IH]; intros w b c I AF HB WF HC; cbn [run].
+  - cbn [ops_cost] in HC.
+    split; [ exact I | ]. split; [ split; reflexivity | ]. split; [ exact AF | ]. split; [ constructor | ].
+    split; [ lia | intros Hb _; exact (HB Hb) ].
+  - cbn [ops_cost wf_ops] in *.
+    pose proof (step_ok rz w o (ops_cost rz rest + c) I AF) as HS.
+    destruct (step rz w o) as [w1 l1].
+    destruct HS as (I1 & SB1 & AF1 & C1 & L1 & PK).
+    { intros Ho. rewrite Ho in WF. apply andb_true_iff in WF. destruct WF as [W _]. exact (HB W). }
+    { lia. }
+    assert (exists b1, (b1 = true -> ph w1 = PhObjects) /\ wf_ops b1 rest = true /\
+                       (b = true -> is_object o = true -> b1 = true)) as (b1 & HB1 & WF1 & HBB).
+    { destruct (is_object o) eqn:Eo.
+      - apply andb_true_iff in WF. destruct WF as [W1 W2]. exists b. split; [ | split; [ exact W2 | auto ] ].
+        intros _. apply PK; [ exact (HB W1) | ]. apply andb_false_r.
+      - destruct (is_reserve o) eqn:Er.
+        + exists false. split; [ discriminate | split; [ exact WF | intros _ H; discriminate ] ].
+        + exists b. split; [ | split; [ exact WF | intros _ H; discriminate ] ].
+          intros Hb. apply PK; [ exact (HB Hb) | reflexivity ]. }
+    specialize (IH w1 b1 c I1 AF1 HB1 WF1 ltac:(lia)).
+    destruct (run rz w1 rest) as [w2 l2].
+    destruct IH as (I2 & SB2 & AF2 & L2 & C2 & P2).
+    splits; try assumption.
+    + destruct SB1, SB2; split; congruence.
+    + apply Forall_app. split.
+      * eapply Forall_impl; [ | exact L1 ]. intros e He. eapply entry_ok_of_free; [ | exact I | exact He ]. split; reflexivity.
+      * eapply Forall_impl; [ | exact L2 ]. intros e [Z | (p & E1 & E2 & E3)]; [ left; exact Z | right ].
+        exists p. destruct SB1 as [S1 S2]. rewrite <- S1, <- S2. repeat split; assumption.
+    + intros Hb Hall. cbn [forallb] in Hall. apply andb_true_iff in Hall. destruct Hall as [Ho Hr].
+      apply P2; [ exact (HBB Hb Ho) | exact Hr ].
+Qed.
+
+(* the static flag never changes *)
+Lemma step_static rz w o : is_static (fst (step rz w o)) = is_static w.
+Proof.
+  destruct o; cbn [step];
+  unfold reserve_object, reserve_table, reserve_aligned_init_once, reserve_aligned, reserve_buffer, reserve_internal,
+         reserve_internal_buffer_space, advance_phase, clear, clear_tables, mark_tables_dirty, mark_tables_clean,
+         set_failed, set_alloc, set_phase, set_initOnce, set_tableEnd, set_tableValidEnd;
+  repeat match goal with
+         | |- context [ if ?c then _ else _ ] => destruct c
+         | |- context [ match ?c with Some _ => _ | None => _ end ] => destruct c
+         end; reflexivity.
+Qed.
+
+Lemma run_static rz : forall ops w, is_static (fst (run rz w ops)) = is_static w.
+Proof.
+  induction ops as [ | o rest IH]; intros w; cbn [run]; [ reflexivity | ].
+  pose proof (step_static rz w o) as H. destruct (step rz w o) as [w1 l1]. cbn [fst] in H.
+  specialize (IH w1). destruct (run rz w1 rest) as [w2 l2]. cbn [fst] in *. congruence.
+Qed.
